@@ -154,11 +154,12 @@ impl<T: Send> RendezvousSyncSender<T> {
 
   /// Converts this handle into an asynchronous [`RendezvousAsyncSender`]. Zero-cost.
   pub fn to_async(self) -> RendezvousAsyncSender<T> {
+    let closed = self.closed.load(Ordering::Relaxed);
     let shared = unsafe { std::ptr::read(&self.shared) };
     mem::forget(self);
     RendezvousAsyncSender {
       shared,
-      closed: AtomicBool::new(false),
+      closed: AtomicBool::new(closed),
     }
   }
 }
@@ -239,11 +240,12 @@ impl<T: Send> RendezvousSyncReceiver<T> {
 
   /// Converts this handle into an asynchronous [`RendezvousAsyncReceiver`]. Zero-cost.
   pub fn to_async(self) -> RendezvousAsyncReceiver<T> {
+    let closed = self.closed.load(Ordering::Relaxed);
     let shared = unsafe { std::ptr::read(&self.shared) };
     mem::forget(self);
     RendezvousAsyncReceiver {
       shared,
-      closed: AtomicBool::new(false),
+      closed: AtomicBool::new(closed),
     }
   }
 }
@@ -259,7 +261,7 @@ impl<T: Send> Drop for RendezvousSyncReceiver<T> {
 impl<T: Send> RendezvousAsyncSender<T> {
   /// Sends a value, resolving once the receiver takes it or the channel closes.
   pub fn send(&self, item: T) -> SendFuture<'_, T> {
-    SendFuture::new(&self.shared, item)
+    SendFuture::new(&self.shared, &self.closed, item)
   }
 
   /// Attempts to hand off to an already-waiting receiver without awaiting.
@@ -312,11 +314,12 @@ impl<T: Send> RendezvousAsyncSender<T> {
 
   /// Converts this handle into a synchronous [`RendezvousSyncSender`]. Zero-cost.
   pub fn to_sync(self) -> RendezvousSyncSender<T> {
+    let closed = self.closed.load(Ordering::Relaxed);
     let shared = unsafe { std::ptr::read(&self.shared) };
     mem::forget(self);
     RendezvousSyncSender {
       shared,
-      closed: AtomicBool::new(false),
+      closed: AtomicBool::new(closed),
     }
   }
 }
@@ -333,7 +336,7 @@ impl<T: Send> RendezvousAsyncReceiver<T> {
   /// Receives a value, resolving once the sender hands one off or the channel
   /// disconnects.
   pub fn recv(&self) -> RecvFuture<'_, T> {
-    RecvFuture::new(&self.shared)
+    RecvFuture::new(&self.shared, &self.closed)
   }
 
   /// Attempts to take from an already-waiting sender without awaiting.
@@ -386,11 +389,12 @@ impl<T: Send> RendezvousAsyncReceiver<T> {
 
   /// Converts this handle into a synchronous [`RendezvousSyncReceiver`]. Zero-cost.
   pub fn to_sync(self) -> RendezvousSyncReceiver<T> {
+    let closed = self.closed.load(Ordering::Relaxed);
     let shared = unsafe { std::ptr::read(&self.shared) };
     mem::forget(self);
     RendezvousSyncReceiver {
       shared,
-      closed: AtomicBool::new(false),
+      closed: AtomicBool::new(closed),
     }
   }
 }
@@ -407,6 +411,7 @@ impl<T: Send> Drop for RendezvousAsyncReceiver<T> {
 #[must_use = "futures do nothing unless you .await or poll them"]
 pub struct SendFuture<'a, T: Send> {
   shared: &'a Arc<RvShared<T>>,
+  closed: &'a AtomicBool,
   slot: Option<T>,
   state: AtomicU8,
   registered: bool,
@@ -414,9 +419,10 @@ pub struct SendFuture<'a, T: Send> {
 }
 
 impl<'a, T: Send> SendFuture<'a, T> {
-  fn new(shared: &'a Arc<RvShared<T>>, item: T) -> Self {
+  fn new(shared: &'a Arc<RvShared<T>>, closed: &'a AtomicBool, item: T) -> Self {
     Self {
       shared,
+      closed,
       slot: Some(item),
       state: AtomicU8::new(WAITING),
       registered: false,
@@ -432,6 +438,9 @@ impl<'a, T: Send> Future for SendFuture<'a, T> {
     let this = unsafe { self.get_unchecked_mut() };
     if this.slot.is_none() && !this.registered {
       return Poll::Ready(Ok(()));
+    }
+    if !this.registered && this.closed.load(Ordering::Relaxed) {
+      return Poll::Ready(Err(SendError::Closed));
     }
     this
       .shared
@@ -453,6 +462,7 @@ impl<'a, T: Send> Drop for SendFuture<'a, T> {
 #[must_use = "futures do nothing unless you .await or poll them"]
 pub struct RecvFuture<'a, T: Send> {
   shared: &'a Arc<RvShared<T>>,
+  closed: &'a AtomicBool,
   dest: Option<T>,
   state: AtomicU8,
   registered: bool,
@@ -460,9 +470,10 @@ pub struct RecvFuture<'a, T: Send> {
 }
 
 impl<'a, T: Send> RecvFuture<'a, T> {
-  fn new(shared: &'a Arc<RvShared<T>>) -> Self {
+  fn new(shared: &'a Arc<RvShared<T>>, closed: &'a AtomicBool) -> Self {
     Self {
       shared,
+      closed,
       dest: None,
       state: AtomicU8::new(WAITING),
       registered: false,
@@ -476,6 +487,9 @@ impl<'a, T: Send> Future for RecvFuture<'a, T> {
 
   fn poll(self: Pin<&mut Self>, cx: &mut Context<'_>) -> Poll<Self::Output> {
     let this = unsafe { self.get_unchecked_mut() };
+    if !this.registered && this.closed.load(Ordering::Relaxed) {
+      return Poll::Ready(Err(RecvError::Disconnected));
+    }
     this
       .shared
       .poll_recv(cx, &this.state, &mut this.dest, &mut this.registered)
